@@ -63,6 +63,10 @@ def generate(seed, prop, h, tier, jobs=(2, 3), vertex_p=0.4, fault_p=0.25, fault
                 # the secondary (tie-breaking / smoothing) solves of a round: a solver that stops there with a
                 # non-optimal status after writing its iterate is the classic "swallowed failure" spot
                 at, kind = fr.pick([1, 2, 2, 5, 7, 8, 8]), fr.pick(["iterate:-1", "iterate:0", "status:-1"])
+            elif fr.chance(0.4):
+                # the first (main) solve of a round, where a failed solve is most tempting to "retry differently";
+                # rounds 2 and 3 carry the hand-offs of the earlier rounds
+                at, kind = fr.pick([0, 3, 3, 3, 6, 6]), fr.pick(["exec", "status:-1", "status:0", "status:-2", "iterate:-1"])
             faults[str(ji)] = [{"seam": "solve", "at": at, "kind": kind}]
         elif seam == "write":
             faults[str(ji)] = [{"seam": "write", "at": fr.randrange(3), "kind": fr.pick(["enospc", "eio", "eacces", "short"]), "k": fr.randrange(600)}]
